@@ -525,8 +525,10 @@ func c10Run(ctx *vc.Ctx, rep *vc.Report) {
 			runHost(hostScn{Name: "host:fragx:" + a + "+" + b, Pieces: []string{fx[a], fx[b]}, CloseAt: 2}, pairBound)
 		}
 	}
-	rep.Count("hostile_pieces", int64(len(names)))
-	rep.Count("pair_menu", int64(len(sub)))
+	if ctx.Worker == 0 {
+		rep.Count("hostile_pieces", int64(len(names)))
+		rep.Count("pair_menu", int64(len(sub)))
+	}
 	if ctx.Thorough() {
 		// every single piece again with 2 deviations; a time cap here leaves everything above fully covered
 		for _, n := range names {
@@ -627,7 +629,9 @@ func c10FragSeqs(ctx *vc.Ctx, rep *vc.Report, idx *int64) {
 			}
 		}
 	}
-	rep.Count("fragment_alphabet", int64(len(alpha)))
+	if ctx.Worker == 0 {
+		rep.Count("fragment_alphabet", int64(len(alpha)))
+	}
 }
 
 func c10Attachment(ctx *vc.Ctx, rep *vc.Report, idx *int64) {
